@@ -176,6 +176,21 @@ def run_c03(tier, seed):
         for vals in ((b"no", b"yes", b"no"), (b"0", b"1", b"x")):
             reqs = [("CONFIG", [b"SET", key, v]) for v in vals] + [("CONFIG", [b"GET", key]), ("PING", []), ("GET", [b"k"]), ("CONFIG", [b"SET", key, vals[1]]), ("ECHO", [b"end"])]
             cases.append(dict(reqs=reqs, line=None, chunk="whole", quit_at=None))
+    # index arithmetic at the edges of the integer range: every command that computes with two integer arguments over a handler
+    # result (offset * step, offset + count, start + 1, length - stop) gets every pair of extreme values; the handler returns four
+    # elements (two member / score pairs), so ranges are not cut short by an empty result.  Each request is followed by PING.
+    EXT = [0, 1, -1, 2, 3, 2**31 - 1, 2**31, -2**31, 2**62 - 1, 2**62, 2**62 + 1, 2**63 - 2, 2**63 - 1, -2**63, -2**63 + 1]
+    four = "ma[b(61),b(31),b(62),b(32)]"
+    shapes = [("ZREVRANGEBYSCORE", lambda a, b: [b"k", b"+inf", b"-inf", b"LIMIT", a, b], four), ("ZREVRANGEBYSCORE", lambda a, b: [b"k", b"+inf", b"-inf", b"WITHSCORES", b"LIMIT", a, b], four),
+              ("ZREVRANGE", lambda a, b: [b"k", a, b], four), ("ZREVRANGE", lambda a, b: [b"k", a, b, b"WITHSCORES"], four),
+              ("GETRANGE", lambda a, b: [b"k", a, b], "mb(" + L.hx(b"hello world") + ")"), ("SUBSTR", lambda a, b: [b"k", a, b], "mb(" + L.hx(b"hello") + ")")]
+    for nm_, mk_, dflt in shapes:
+        for a_ in EXT:
+            reqs = []
+            for b_ in EXT:
+                reqs.append((nm_, mk_(b"%d" % a_, b"%d" % b_)))
+            reqs.append(("PING", []))
+            cases.append(dict(reqs=reqs, line=None, chunk="whole", quit_at=None, magic=True, default=dflt, notbl=True))
     # the SECOND and THIRD use of the same request on one server (state a first use leaves behind: caches, locks, registrations)
     for name in G.DIRECT:
         nm_, args_, _ = G.gen_direct(rng, name)
@@ -204,7 +219,7 @@ def run_c03(tier, seed):
                 c["reqs"].insert(rng.randrange(len(c["reqs"]) + 1), ("AUTH", [rng.choice([pw, pw, b"wrong"])]))
         c["pw"] = pw
         noerr = has_mapcmd(c["reqs"])
-        tbl = rand_table(rng, noerr=noerr)
+        tbl = rand_table(rng, noerr=noerr) if not c.get("notbl") else None
         if c["chunk"] == "pipeline":
             data = b"".join(G.request_bytes(nm, a) for nm, a in c["reqs"])
             steps = [(0, "f" + L.hx(data))]
@@ -212,7 +227,7 @@ def run_c03(tier, seed):
             for nm, a in c["reqs"]:
                 steps += chunk_ops(rng, G.request_bytes(nm, a), c["chunk"])
         steps.append((0, "e"))
-        c["line"] = L.mkcase(steps, pw=c["pw"], tbl=tbl, default=rng.choice(HRES_NOERR if noerr else HRES_POOL[:-1]))
+        c["line"] = L.mkcase(steps, pw=c["pw"], tbl=tbl, default=c.get("default") or rng.choice(HRES_NOERR if noerr else HRES_POOL[:-1]))
         c["desc"] = ("[requirepass] " if c["pw"] else "") + " ; ".join(req_desc(nm, a) for nm, a in c["reqs"])[:300]
         for nm, _ in c["reqs"]:
             u = nm.upper() if isinstance(nm, str) else "?"
@@ -526,6 +541,13 @@ def run_c05(tier, seed):
         cases.append(dict(kind="unknown", name=rng.choice(["NOSUCH", "GETX", "SE", "", "get k", "FLUSHALL", "ZADDX"]), args=[G.g_str(rng) for _ in range(rng.randint(0, 3))], exp=None, db=0, hres="ms(4f4b)"))
     for reg, sent in [("mycmd", "mycmd"), ("mycmd", "MYCMD"), ("MyCmd", "mYcMD"), ("MYCMD", "mycmd"), ("x1", "X1")]:
         cases.append(dict(kind="app", name=sent, args=[b"a", b"b"], exp=None, db=0, hres="ms(4f4b)", reg=reg))
+    # commands whose reply is collected from several handler calls (MGET: one Get per key; HMGET: one HGet per field; MSET / HMSET:
+    # one Set / HSet per pair): when ONE of the calls fails, the client receives that error - not a shorter list, not OK
+    boom = "e" + L.hx(b"WRONGTYPE boom")
+    for nm_, argsets, meth in (("MGET", [[b"bad"], [b"k1", b"bad", b"k3"], [b"k1", b"k2", b"bad"], [b"bad", b"k2"]], "Get"),
+                               ("HMGET", [[b"bad", b"f1"], [b"bad", b"f1", b"f2", b"f3"]], "HGet")):
+        for a_ in argsets:
+            cases.append(dict(kind="collect", name=nm_, args=a_, exp=None, db=0, hres="mb(76)", tbl={"%s:%s" % (meth, L.hx(b"bad")): boom}, errtext=b"WRONGTYPE boom"))
     for ci_, c in enumerate(cases):
         sent = c.get("sent", c["name"])
         steps = []
@@ -546,7 +568,7 @@ def run_c05(tier, seed):
             steps += chunk_ops(rng, data, "whole" if mode == "whole" else "kway")
         steps.append((0, "e"))
         c["delivery"] = mode
-        c["line"] = L.mkcase(steps, default=c["hres"], app=[c["reg"].encode()] if c.get("reg") else ())
+        c["line"] = L.mkcase(steps, default=c["hres"], app=[c["reg"].encode()] if c.get("reg") else (), tbl=c.get("tbl"))
         c["desc"] = req_desc(sent, c["args"])[:300] + " [delivered: %s]" % mode
     # the command NAME is matched case-insensitively every time, not only the first time a spelling is seen: several connections of one
     # password-protected server authenticate with the same spelling, then use a command with the same spelling
@@ -647,6 +669,11 @@ def run_c05(tier, seed):
         if c["kind"] == "unknown":
             if calls or any(e.startswith("APP:") for e in evs) or reply is None or not reply.startswith(b"-"):
                 chk.violation("unknown-command", "unknown command %r: calls=%s reply=%r" % (c["name"], [x[4] for x in calls], reply), dict(case=c["line"], desc=c["desc"]))
+                continue
+        elif c["kind"] == "collect":
+            if reply is None or not reply.startswith(b"-") or c["errtext"] not in reply:
+                chk.violation("handler-error-lost:" + c["name"], "%s: the handler failed one of the calls with the error %r, the client received %r" % (c["desc"], c["errtext"], reply),
+                              dict(case=c["line"], desc=c["desc"], handler_error=c["errtext"].decode(), got=repr(reply)))
                 continue
         elif c["kind"] == "app":
             apps = [e for e in evs if e.startswith("APP:")]
